@@ -540,6 +540,38 @@ def _lower_for(pat, expr, loop_ann, body, n, ptypes, log):
 
 
 # ---------------------------------------------------------------------------------------
+# D26 (integer/src/gcd/lehmer.rs gcd_ext_in_place)
+
+def rule_d26(toks, log):
+    """`P . borrow_mut ( )` with P a PARAMETER of the function of type `& mut [ Word ]` (real tokens) ==> `__reborrow_words ( P )`.
+    With `use core::borrow::BorrowMut as _` in scope method resolution picks `<[Word] as BorrowMut<[Word]>>::borrow_mut`, core's
+    blanket `impl<T: ?Sized> BorrowMut<T> for T { fn borrow_mut(&mut self) -> &mut T { self } }`: the identity reborrow.  Verus cannot
+    state a specification for that impl (unsized T); `__reborrow_words(s: &mut [Word]) -> &mut [Word]` is the identity function,
+    VERIFIED in the unit (lib/leh_ext_lemmas.rs: `r@ == old(s)@, final(s)@ == final(r)@`).  Any other receiver is left untouched
+    (and then fails in Verus: exit-2 class)."""
+    ptypes = _fn_param_types(toks)
+    out = []
+    i = 0
+    hits = []
+    while i < len(toks):
+        t = toks[i]
+        if t[0] == 'id' and not t[2] and t[1] in ptypes and _txt(ptypes[t[1]]) == '& mut [ Word ]' \
+                and i + 4 < len(toks) and _is(toks[i + 1], '.') and _is(toks[i + 2], 'borrow_mut') \
+                and _is(toks[i + 3], '(') and _is(toks[i + 4], ')') and not any(x[2] for x in toks[i:i + 5]) \
+                and not (i > 0 and _is(toks[i - 1], '.')):
+            out += toks_of('__reborrow_words (', False) + [t] + [T('p', ')')]
+            hits.append(t[1])
+            i += 5
+            continue
+        out.append(t)
+        i += 1
+    if hits:
+        log.append('D26 `P.borrow_mut()` -> `__reborrow_words(P)` for the `&mut [Word]` parameter(s) %s (identity helper verified in the unit)'
+                   % ', '.join(hits))
+    return out
+
+
+# ---------------------------------------------------------------------------------------
 # D8: a proof block placed after the tail expression of the function body
 
 def rule_d8(toks, log):
@@ -606,7 +638,8 @@ def rule_d9(toks, log):
         head_end = None
         if not t[2] and t[0] == 'p' and t[1] == '||':
             head_end = i
-        elif not t[2] and t[0] == 'p' and t[1] == '|' and i > 0 and out[i - 1][0] == 'p' and out[i - 1][1] in ('(', ','):
+        elif not t[2] and t[0] == 'p' and t[1] == '|' and i > 0 and out[i - 1][0] == 'p' and out[i - 1][1] in ('(', ',', '='):
+            # ('=': rule D9b, a `let NAME = |params| /*@ -> .. @*/ EXPR;` closure; only the annotated head below makes it a match)
             j = i + 1
             while j < len(out) and not (out[j][0] == 'p' and out[j][1] == '|'):
                 if out[j][0] == 'p' and out[j][1] in ('{', '}', ';'):
@@ -626,7 +659,8 @@ def rule_d9(toks, log):
         if _is(out[a], '{'):
             i = a
             continue            # already a block (nothing to rewrite, also for `let f = || -> .. { .. }`)
-        if not (i > 0 and out[i - 1][0] == 'p' and out[i - 1][1] in ('(', ',')):
+        let_bound = i > 0 and out[i - 1][0] == 'p' and out[i - 1][1] == '=' and not out[i - 1][2]
+        if not (i > 0 and out[i - 1][0] == 'p' and out[i - 1][1] in ('(', ',')) and not let_bound:
             raise Unsupported('D9: annotated closure is not a call argument')
         d = 0
         e = a
@@ -641,7 +675,11 @@ def rule_d9(toks, log):
             elif d == 0 and tk[0] == 'p' and tk[1] in (',', ';'):
                 break
             e += 1
-        if e >= len(out) or not (out[e][0] == 'p' and out[e][1] in (')', ',')):
+        if let_bound:
+            # D9b: the body of a let-bound closure runs to the `;` that ends the `let`
+            if e >= len(out) or not (out[e][0] == 'p' and out[e][1] == ';'):
+                raise Unsupported('D9b: let-bound closure body shape')
+        elif e >= len(out) or not (out[e][0] == 'p' and out[e][1] in (')', ',')):
             raise Unsupported('D9: closure body shape')
         if any(x[2] for x in out[a:e]):
             raise Unsupported('D9: annotation inside a closure body expression')
@@ -1943,6 +1981,59 @@ def rule_d11d(toks, log):
 
 
 # ---------------------------------------------------------------------------------------
+# D11e: overloaded arithmetic operator whose LEFT operand is the hoisted `&self` receiver of a non-primitive type
+
+def rule_d11e(toks, log):
+    """`self_ OP R` in a hoisted method whose receiver is `self_ : & T` (T not a primitive integer, not `&mut`), OP one of
+    `* / % + -`, R a parenthesised expression `( .. )`, a path `id ( :: id )*` or one literal (real tokens only), preceded
+    by `=`, `(`, `{`, `}`, `;`, `,` or an annotation and followed by `;`, `)`, `}`, `,` or an annotation
+    ==> `core::ops::Tr::m(self_, R)`.  Same reason and same justification as D11 / D11c (Verus crashes with
+    `codegen_select_candidate failed` on an overloaded operator with a reference operand; the rewrite is Rust's own
+    definition of the operator): integer/src/third_party/num_order.rs `self % (i128::MAX as u128)`, `(self % i128::MAX)`.
+    Any other shape is left untouched."""
+    out = list(toks)
+    recv_ref = False
+    for k in range(len(out) - 3):
+        if out[k][2]:
+            continue
+        if out[k][0] == 'id' and out[k][1] == 'self_' and _is(out[k + 1], ':') and _is(out[k + 2], '&'):
+            if not _is(out[k + 3], 'mut') and not (out[k + 3][0] == 'id' and out[k + 3][1] in _D14C_PRIMS):
+                recv_ref = True
+            break
+        if _is(out[k], '{'):
+            break
+    if not recv_ref:
+        return out
+    i = 1
+    while i + 2 < len(out):
+        a, o = out[i], out[i + 1]
+        if a[0] == 'id' and a[1] == 'self_' and not a[2] and o[0] == 'p' and o[1] in _D11_OPS and not o[2] \
+                and (out[i - 1][2] or (out[i - 1][0] == 'p' and out[i - 1][1] in ('=', '(', '{', '}', ';', ','))):
+            j = i + 2
+            if _is(out[j], '(') and not out[j][2]:
+                e = _match_close(out, j) + 1
+            elif out[j][0] == 'id' and not out[j][2]:
+                e = j + 1
+                while e + 1 < len(out) and _is(out[e], '::') and not out[e][2] and out[e + 1][0] == 'id' and not out[e + 1][2]:
+                    e += 2
+            elif out[j][0] in ('lit', 'int', 'num') and not out[j][2]:
+                e = j + 1
+            else:
+                e = None
+            if e is not None and e < len(out) and not any(x[2] for x in out[j:e]):
+                nxt = out[e]
+                if nxt[2] or (nxt[0] == 'p' and nxt[1] in (';', ')', '}', ',')):
+                    log.append('D11e `%s` -> core::ops::%s(..) (reference receiver)' % (
+                        _txt(out[i:e])[:80], _D11_OPS[o[1]].replace(' ', '')))
+                    new = toks_of('core :: ops :: %s (' % _D11_OPS[o[1]], False) + [a, T('p', ',')] + out[j:e] + [T('p', ')')]
+                    out = out[:i] + new + out[e:]
+                    i += len(new)
+                    continue
+        i += 1
+    return out
+
+
+# ---------------------------------------------------------------------------------------
 # D1e: `let G = X . rchunks ( N ) ;` .. `G . len ( )` .. `for P in G . rev ( ) { B }`
 
 def _rchunks_locals(toks):
@@ -2046,6 +2137,18 @@ def rule_d21(toks, log):
                 lead.append(stmt.pop(0))
             if any(x[2] for x in stmt):
                 raise Unsupported('D21: annotation inside the statement')
+            if len(stmt) >= 5 and stmt[0][0] == 'id' and stmt[1][0] == 'p' and stmt[1][1] in ('=', '+=') and _is(stmt[-1], ')'):
+                # D21b (shape-checked): `V += CALL ;` / `V = CALL ;` with V ONE identifier (a local scalar): same rewrite, the
+                # assignee is a plain local, so naming the right operand first cannot change the meaning
+                rhs = stmt[2:]
+                rv = '__rhs%d' % n
+                n += 1
+                log.append('D21b `%s` -> right operand `%s` named %s before the assignment (proof step in between)' % (
+                    _txt(stmt)[:70], _txt(rhs)[:50], rv))
+                out = out[:k + 1] + lead + toks_of('let %s =' % rv, False) + rhs + [T('p', ';')] + proof + \
+                    stmt[:2] + toks_of('%s ;' % rv, False)
+                i = je + 1
+                continue
             if len(stmt) < 6 or stmt[0][0] != 'id' or not _is(stmt[1], '['):
                 raise Unsupported('D21: statement shape (expected `X [ I ] = CALL ;`): ' + _txt(stmt))
             ce = _match_close(stmt, 1)
@@ -2384,6 +2487,7 @@ def lower(toks, marks, opts=None):
     ts = rule_d11b(ts, log)
     ts = rule_d11c(ts, log)
     ts = rule_d11d(ts, log)
+    ts = rule_d11e(ts, log)
     ts = rule_d12(ts, log)
     ts = rule_d13(ts, log)
     ts = rule_d14(ts, log)
@@ -2401,6 +2505,7 @@ def lower(toks, marks, opts=None):
     ts = rule_d24(ts, log)
     ts = rule_d22(ts, log)
     ts = rule_d23(ts, log)
+    ts = rule_d26(ts, log)
     ts = rule_d1(ts, log)
     ts = rule_d9(ts, log)
     ts = rule_d8(ts, log)
